@@ -35,6 +35,15 @@ var uninterp = map[string]uninterpFn{
 	"rune_count":   {[]string{"Str"}, "Int", types.Typ[types.Int]},
 	"str_repeat":   {[]string{"Str", "Int"}, "Str", types.Typ[types.String]},
 	"f32fin":       {[]string{"Flt"}, "Bool", types.Typ[types.Bool]},
+	"nvars":        {[]string{"Any"}, "Int", types.Typ[types.Int]},
+	"enc_len":      {[]string{"Any"}, "Int", types.Typ[types.Int]},
+	"enc_at":       {[]string{"Any", "Int"}, "Int", types.Typ[types.Int]},
+	"fill_of":      {[]string{"Any", "Int"}, "Any", types.NewInterfaceType(nil, nil)},
+	"has_space_rune": {[]string{"Str"}, "Bool", types.Typ[types.Bool]},
+	"space_wit":    {[]string{"Str"}, "Int", types.Typ[types.Int]},
+	"rune_at":      {[]string{"Str", "Int"}, "Int", types.Typ[types.Int]},
+	"rune_w":       {[]string{"Str", "Int"}, "Int", types.Typ[types.Int]},
+	"rune_start":   {[]string{"Str", "Int"}, "Bool", types.Typ[types.Bool]},
 }
 
 func uninterpDecls() string {
@@ -58,6 +67,15 @@ func uninterpDecls() string {
 (assert (forall ((s Str)) (! (and (<= 0 (rune_count s)) (<= (rune_count s) (slen s))) :pattern ((rune_count s)))))
 (assert (forall ((s Str) (p Str)) (! (and (<= 0 (re_prefixlen p s)) (<= (re_prefixlen p s) (slen s))) :pattern ((re_prefixlen p s)))))
 (assert (forall ((s Str) (b Int) (z Int) (u Int)) (! (not (and (parse_ok s b z u) (parse_range s b z u))) :pattern ((parse_ok s b z u)))))
+(assert (forall ((a Any)) (! (>= (nvars a) 0) :pattern ((nvars a)))))
+(assert (forall ((a Any)) (! (>= (enc_len a) 0) :pattern ((enc_len a)))))
+(assert (forall ((a Any) (i Int)) (! (and (<= 0 (enc_at a i)) (< (enc_at a i) 256)) :pattern ((enc_at a i)))))
+(assert (forall ((s Str)) (! (rune_start s 0) :pattern ((rune_start s 0)))))
+(assert (forall ((s Str) (p Int)) (! (=> (and (<= 0 p) (< p (slen s))) (and (<= 1 (rune_w s p)) (<= (rune_w s p) 4) (<= (+ p (rune_w s p)) (slen s)) (=> (< (sat s p) 128) (and (= (rune_at s p) (sat s p)) (= (rune_w s p) 1))) (=> (>= (sat s p) 128) (and (>= (rune_at s p) 128) (<= (rune_at s p) 1114111))))) :pattern ((rune_w s p)) :pattern ((rune_at s p)))))
+(assert (forall ((s Str) (p Int)) (! (=> (and (rune_start s p) (<= 0 p) (< p (slen s))) (rune_start s (+ p (rune_w s p)))) :pattern ((rune_start s p) (rune_w s p)))))
+(assert (forall ((s Str) (p Int) (q Int)) (! (=> (and (rune_start s p) (rune_start s q) (<= 0 p) (< p q) (< p (slen s))) (<= (+ p (rune_w s p)) q)) :pattern ((rune_start s p) (rune_start s q)))))
+(assert (forall ((s Str) (p Int)) (! (=> (and (<= 0 p) (< p (slen s)) (rune_start s p) (is_space (rune_at s p))) (has_space_rune s)) :pattern ((rune_start s p) (has_space_rune s)) :pattern ((is_space (rune_at s p))))))
+(assert (forall ((s Str)) (! (=> (has_space_rune s) (and (<= 0 (space_wit s)) (< (space_wit s) (slen s)) (rune_start s (space_wit s)) (is_space (rune_at s (space_wit s))))) :pattern ((has_space_rune s)))))
 `)
 	return sb.String()
 }
@@ -81,7 +99,14 @@ func calleeFullName(fn *ssa.Function) string {
 func (f *Frame) stdlibCall(callee *ssa.Function, args []Val, rt types.Type, pos, desc string) Val {
 	s := f.s
 	name := calleeFullName(callee)
-	T := func(i int) string { return f.asS(args[i], callee.Params[i].Type()).T }
+	var ptypes []types.Type
+	if r := callee.Signature.Recv(); r != nil {
+		ptypes = append(ptypes, r.Type())
+	}
+	for i := 0; i < callee.Signature.Params().Len(); i++ {
+		ptypes = append(ptypes, callee.Signature.Params().At(i).Type())
+	}
+	T := func(i int) string { return f.asS(args[i], ptypes[i]).T }
 	switch name {
 	case "fmt.Sprintf":
 		// constant formats with one %d argument: "i%d", "u%d", "f%d" ...
